@@ -29,6 +29,12 @@ OpOf(r) == [op |-> r.op, h |-> r.h, nh |-> r.nh, a |-> r.a, scr |-> r.scr, d |->
             cfg |-> IF "cfg" \in DOMAIN r THEN r.cfg ELSE NoCfg]
 
 CanStep(t) == TaskCanStepW(t, FALSE)
+\* why an idle loop could go on although the real one does not: names the guard (and so the property)
+IdleReason(prefix, a) ==
+  IF act[a].mq # <<>> THEN prefix \o "deq." \o Head(act[a].mq).src
+  ELSE IF act[a].stream /\ (act[a].sq.ready > 0 \/ act[a].sq.ended) /\ ChanOpen(a) THEN prefix \o "stream"
+  ELSE IF act[a].stream THEN prefix \o "closed.stream" ELSE prefix \o "closed"
+HeldAsChild(a) == \E p \in Actor : ~Terminated(p) /\ \E i \in 1..Len(act[p].kids) : act[p].kids[i].a = a
 
 TInit == EmptyInit /\ l = 1 /\ TLCSet(2, {}) /\ TLCSet(3, 1)
 
@@ -52,7 +58,7 @@ T_Block == /\ IsEvent("block")
               /\ IF yl \/ ~CanStep(t) \/ (t \in Tasker /\ cli[t].stage = "reglock") THEN TRUE
                  ELSE IF t \in Client THEN G("blk." \o cli[t].stage, FALSE)
                  ELSE IF t \in DOMAIN tmr THEN G("blk.timer", FALSE)
-                 ELSE IF act[t].pc = "idle" THEN G(IF act[t].mq = <<>> THEN "blk.loop.closed" ELSE "blk.loop.deq", FALSE)
+                 ELSE IF act[t].pc = "idle" THEN G(IdleReason("blk.loop.", t), FALSE)
                  ELSE IF act[t].pc = "handling" THEN G("blk.loop.handling", FALSE)
                  ELSE G("blk.loop", FALSE)
               /\ cur' = None /\ yl' = FALSE /\ UNCHANGED sys
@@ -140,8 +146,8 @@ T_Cb == /\ IsEvent("cb")
                           /\ act' = [act EXCEPT ![a].pbseen = TRUE] /\ UNCHANGED <<hnd, cli, rsp, tmr, reg, now, hst, cur, yl>>
                      ELSE /\ (IF act[a].pc # "failed" THEN TRUE ELSE G("cb.pb.failed", FALSE))     \* the graceful epilogue on a failure path
                           /\ (IF ~(act[a].pc = "idle" /\ act[a].mq # <<>>) THEN TRUE ELSE G("cb.pb.undrained", FALSE))   \* stopping with accepted messages still queued
-                          /\ G("cb.pb", \/ act[a].pc = "dequeued" /\ act[a].curp.k \in {"stop", "restart"}
-                                        \/ act[a].pc = "idle" /\ act[a].mq = <<>> /\ ~ChanOpen(a))
+                          /\ G(IF HeldAsChild(a) THEN "cb.pb.child" ELSE "cb.pb",
+                               (act[a].pc = "dequeued" /\ act[a].curp.k \in {"stop", "restart"}) \/ (act[a].pc = "idle" /\ act[a].mq = <<>> /\ ~ChanOpen(a)))
                           /\ RunLoop(a)
                 [] E.name = "fb" ->
                      \* stop taken, mailbox closed, or stream exhausted: any of them, whichever the real select! saw
@@ -227,7 +233,10 @@ SeqSet(s) == {s[i] : i \in 1..Len(s)}
 T_Quiescent == /\ IsEvent("quiescent")
                /\ G("q.free", cur = None)
                /\ (E.capped \/
-                    /\ G("q.loops", \A a \in Actor : ~CanStep(a))
+                    /\ LET bad == {a \in Actor : CanStep(a)} IN
+                       IF bad = {} THEN TRUE
+                       ELSE LET a == CHOOSE x \in bad : TRUE IN
+                            G(IF act[a].pc = "idle" THEN IdleReason("q.loops.", a) ELSE "q.loops", FALSE)
                     /\ G("q.clients", \A c \in Client : ~CanStep(c))
                     /\ G("q.timers", \A i \in DOMAIN tmr : ~CanStep(i))
                     /\ G("q.unresolved", SeqSet(E.unresolved) = {c \in Client : cli[c].stage # "idle"})
@@ -240,7 +249,7 @@ T_Unavailable == /\ IsEvent("unavailable")
                  /\ G("un.free", cur = None)
                  /\ LET w == E.what IN
                     IF w = "adv" THEN G("un.adv", Pending = {})
-                    ELSE IF w \in Actor THEN (IF act[w].pc = "idle" THEN G(IF act[w].mq = <<>> THEN "un.loop.closed" ELSE "un.loop.deq", ~CanStep(w))
+                    ELSE IF w \in Actor THEN (IF act[w].pc = "idle" THEN G(IdleReason("un.loop.", w), ~CanStep(w))
                                              ELSE G("un.loop", ~CanStep(w)))
                     ELSE IF w \in Client THEN G("un." \o cli[w].stage, ~CanStep(w))
                     ELSE IF w \in DOMAIN tmr THEN G("un.timer", ~CanStep(w))
